@@ -1,6 +1,6 @@
 (* Property C15 — a sub-query used inside a query means the same as its conditions inlined.
    Only statements, `exact`, and Print Assumptions. *)
-From EQL Require Import Base Values Syntax Spec Elab Elab_Facts EvalPure EvalPure_Facts Query_Facts Elab_Frag Quant_Facts.
+From EQL Require Import Base Values Syntax Spec Elab Elab_Facts EvalPure EvalPure_Facts Query_Facts Elab_Frag Quant_Facts Dedup Dedup_Facts.
 
 (* inlining every an(entity(v, c)) / an(set_of(vs, c)) used as a condition does not change truth ... *)
 Theorem C15_inline_sat : forall h dom c e, sat h dom (inline c) e = sat h dom c e.
@@ -20,6 +20,25 @@ Proof.
   intros e. symmetry. apply sat_inline.
 Qed.
 Print Assumptions C15_inline_rows.
+
+(* ... also for the evaluator WITH its de-duplication of rows (Dedup.v: the operators of a nested query key their duplicate checks on
+   what the nested query selects and on what the enclosing operators require; tied to symbolic.py by exact row sequences) *)
+Theorem C15_inline_rows_dedup : forall h dom U xs sc ic ic',
+  (forall x, In x U -> NoDup (dom x)) -> sbasic U sc = true -> elab sc = Some ic -> elab (inline sc) = Some ic' ->
+  (forall x, In x xs -> In x U) -> (forall x, In x U -> dom x <> []) ->
+  forall r, In r (run_queryD h dom (map TVar xs) (Some ic)) <-> In r (run_queryD h dom (map TVar xs) (Some ic')).
+Proof.
+  intros h dom U xs sc ic ic' ND B E E' HU NE r.
+  pose proof (elab_basic U sc ic E B) as Bi. pose proof (elab_basic U (inline sc) ic' E' (sbasic_inline U sc B)) as Bi'.
+  split; intros H.
+  - destruct (dedup_sound h dom U ND xs ic r Bi HU NE H) as (e & V & T & ->).
+    apply (dedup_complete h dom U ND xs ic' e Bi' HU V).
+    rewrite (elab_sat h dom (inline sc) ic' E' e), sat_inline, <- (elab_sat h dom sc ic E e). exact T.
+  - destruct (dedup_sound h dom U ND xs ic' r Bi' HU NE H) as (e & V & T & ->).
+    apply (dedup_complete h dom U ND xs ic e Bi HU V).
+    rewrite (elab_sat h dom sc ic E e), <- sat_inline, <- (elab_sat h dom (inline sc) ic' E' e). exact T.
+Qed.
+Print Assumptions C15_inline_rows_dedup.
 
 (* non-vacuity: (sub-query | condition) & sub-query, two variables *)
 Example C15_nonvacuous :
